@@ -103,7 +103,9 @@ def impl_eval(case):
     if k == 'oneshot':
         data = common.pc(0, case['n']) if 'n' in case else bytes.fromhex(case['hex'])
         o = io.BytesIO()
-        mciipm.block_1014(io.BytesIO(data), o)
+        src = io.BytesIO(b'\xee' * case.get('skip', 0) + data)
+        src.read(case.get('skip', 0))       # a caller that has already read a header: the blocker takes what is LEFT to read
+        mciipm.block_1014(src, o)
         out = o.getvalue()
         v = None if out == ref_blockify(data) else 'block_1014 output is not the documented blocking of the data'
         return {'obs': f'ok {common.sig(drop_trailing_fill(out))}', 'violation': v,
@@ -170,6 +172,10 @@ def explore(run, tier):
         cases.append(c)
     for n in list(range(0, 40)) + list(range(1000, 1030)) + list(range(2010, 2040)) + list(range(3030, 3040)):
         cases.append({'k': 'oneshot', 'n': n})
+    # the one-shot blocker on an input whose first bytes have already been read (a header of 1, 24, 1012, 1014 bytes)
+    for skip in (1, 24, 1012, 1014):
+        for n in (0, 5, 1011, 1012, 1013, 2500):
+            cases.append({'k': 'oneshot', 'n': n, 'skip': skip})
     # large inputs: more than 64 KiB through the one-shot blocker (chunked implementations), single writes of tens of
     # blocks up to a thousand blocks (recursive / per-block implementations), many blocks over several writes
     for n in (65535, 65536, 65537, 65780, 70000, 131072, 131073, 200000):
